@@ -83,6 +83,8 @@ struct World<'a> {
     reg_owners: Vec<bls::SecretKey>,
     stranger: bls::SecretKey,
     foreign_keys: Vec<Vec<u8>>,
+    /// held (key, type) set of each node when interval replication was last triggered
+    at_trigger: Vec<BTreeSet<(Vec<u8>, String)>>,
 }
 
 pub fn execute(plan: &Plan, entropy: u64) -> RunReport {
@@ -123,6 +125,7 @@ pub fn execute(plan: &Plan, entropy: u64) -> RunReport {
             reg_owners: (0..2).map(|i| data::bls_key(s, 300 + i)).collect(),
             stranger: data::bls_key(s, 401),
             foreign_keys: vec![],
+            at_trigger: vec![BTreeSet::new(); plan.n_nodes as usize],
         };
         w.run().await;
         nhooks::gates_uninstall();
@@ -194,6 +197,13 @@ impl<'a> World<'a> {
                     n += 1;
                     let held: Vec<(NetworkAddress, RecordType)> = self.hosts[i].store().verif_record_addresses().into_iter().collect();
                     let to = self.node_of(&o.to);
+                    // the replication-list oracle is evaluated at the moment the list is sent
+                    if let Request::Cmd(Cmd::Replicate { holder, keys }) = &o.req {
+                        if holder.as_peer_id() == Some(self.hosts[i].peer) && to.is_some() {
+                            let keys = keys.clone();
+                            self.check_replicate_list(i, &keys, &held);
+                        }
+                    }
                     let id = self.next_msg;
                     self.next_msg += 1;
                     self.transit.push(Transit { id, from: i, to, payload: Payload::Req { req: o.req, reply: o.reply, held_at_send: held } });
@@ -244,8 +254,30 @@ impl<'a> World<'a> {
             }
             return;
         }
-        if list != have {
-            let missing = have.difference(&list).count();
+        // every advertised version (content hash) is the version the sender really holds
+        for (a, t) in keys {
+            if let RecordType::NonChunk(h) = t {
+                let k = a.to_record_key().to_vec();
+                if let Some(r) = self.read(from, &k) {
+                    if data::sha3(&r.value) != h.0 {
+                        self.rep.violate(
+                            "C09",
+                            "advertised_version_is_not_the_held_version",
+                            &[],
+                            format!("node {from} advertises record {} with a content hash that is not the hash of the record it holds", hex::encode(&k[..6])),
+                        );
+                        return;
+                    }
+                }
+            }
+        }
+        // the list is built when the trigger command is handled, some time between the trigger and the
+        // send (records may have been added in between, none are removed in this sim):
+        // held-at-trigger <= list <= held-at-send
+        let floor = self.at_trigger[from].clone();
+        let ok = list.is_subset(&have) && floor.iter().filter(|e| have.contains(*e)).all(|e| list.contains(e));
+        if !ok {
+            let missing = floor.difference(&list).count();
             let extra = list.difference(&have).count();
             self.rep.violate(
                 "C09",
@@ -270,9 +302,7 @@ impl<'a> World<'a> {
                 match req {
                     Request::Cmd(Cmd::Replicate { holder, keys }) => {
                         self.rep.log(format!("net: #{} n{} -> n{to} Replicate({} keys)", t.id, t.from, keys.len()));
-                        if holder.as_peer_id() == Some(self.hosts[t.from].peer) {
-                            self.check_replicate_list(t.from, &keys, &held_at_send);
-                        }
+                        let _ = &held_at_send;
                         self.hosts[to].driver.verif_handle_replicate_request(holder, keys);
                         if let Some(r) = reply {
                             let _ = r.send(Ok(Response::Cmd(CmdResponse::Replicate(Ok(())))));
@@ -318,6 +348,26 @@ impl<'a> World<'a> {
             self.deliver(idx - gates.len()).await;
         }
         true
+    }
+
+    /// run every parked task and timer, deliver nothing
+    async fn pump_local(&mut self) {
+        for round in 0..30 {
+            for _ in 0..200_000 {
+                self.drain().await;
+                let gates = nhooks::gates_pending();
+                let Some(g) = gates.first() else { break };
+                self.rep.sched.write_str(g.site);
+                nhooks::gate_open(g.id);
+            }
+            self.drain().await;
+            let alive = tokio::runtime::Handle::current().metrics().num_alive_tasks();
+            if alive == 0 || round >= 13 {
+                break;
+            }
+            simkit::rt::advance(Duration::from_millis(100)).await;
+            self.rep.sim_time_ms += 100;
+        }
     }
 
     async fn pump_fifo(&mut self) {
@@ -368,9 +418,19 @@ impl<'a> World<'a> {
         bad
     }
 
+    fn snapshot_at_trigger(&mut self, i: usize) {
+        self.at_trigger[i] = self.hosts[i]
+            .store()
+            .verif_record_addresses()
+            .into_iter()
+            .map(|(a, t)| (a.to_record_key().to_vec(), format!("{t:?}")))
+            .collect();
+    }
+
     async fn round(&mut self, label: &str) {
         for i in 0..self.hosts.len() {
             self.hosts[i].driver.verif_age(Duration::from_secs(35));
+            self.snapshot_at_trigger(i);
             self.hosts[i].node.try_interval_replication();
         }
         self.rep.sim_time_ms += 35_000;
@@ -481,7 +541,12 @@ impl<'a> World<'a> {
             let r = nodeh.validate_and_store_record(record).await;
             *res.lock().unwrap() = Some(r.map_err(|e| e.to_string()));
         });
-        self.pump_fifo().await;
+        if self.plan.mode == "fault" {
+            // the node processes the upload; what it sends stays in transit for the fault steps to act on
+            self.pump_local().await;
+        } else {
+            self.pump_fifo().await;
+        }
         let r = result.lock().unwrap().clone();
         self.rep.log(format!("  upload #{uid} -> {r:?}"));
         if let Some(w) = new_want {
@@ -515,6 +580,7 @@ impl<'a> World<'a> {
                 Step::Trigger { node } => {
                     let i = *node as usize % self.hosts.len();
                     self.hosts[i].driver.verif_age(Duration::from_secs(35));
+                    self.snapshot_at_trigger(i);
                     self.hosts[i].node.try_interval_replication();
                     self.rep.sim_time_ms += 35_000;
                     self.rep.log(format!("trigger interval replication at n{i}"));
